@@ -22,7 +22,7 @@ func (c13) ID() string { return "C13" }
 
 func (c13) Budget(tier string) int {
 	if tier == "thorough" {
-		return 30000
+		return 300000
 	}
 	return 5600
 }
